@@ -284,6 +284,9 @@ func ToAllocation(protoAlloc *Allocation) (alloc *channel.Allocation, err error)
 	if err != nil {
 		return nil, errors.WithMessage(err, "backends")
 	}
+	if len(alloc.Backends) != len(protoAlloc.GetAssets()) {
+		return nil, fmt.Errorf("number of backends and assets differ: %d != %d", len(alloc.Backends), len(protoAlloc.GetAssets()))
+	}
 	alloc.Assets = make([]channel.Asset, len(protoAlloc.GetAssets()))
 	for i := range protoAlloc.GetAssets() {
 		alloc.Assets[i] = channel.NewAsset(alloc.Backends[i])
